@@ -36,6 +36,12 @@ Theorem C07_ctor_uq_4x4 :
   ctor cUQ (Bare (Arr (Sq 4) ZeroRow)) = Err ValueError.
 Proof. repeat split. intros t H Hz. destruct t; try discriminate; try reflexivity. contradiction. Qed.
 Print Assumptions C07_ctor_uq_4x4.
+(* UnitQuaternion(ndarray of 4 numbers): stored if unit, otherwise normalised like the list form (fix d0fc1b2); the zero vector is rejected *)
+Theorem C07_ctor_uq_vec4 :
+  ctor cUQ (Bare (Arr (Vec 4) Valid)) = Ok [Elt (Arr (Vec 4) Valid)] /\
+  ctor cUQ (Bare (Arr (Vec 4) AltForm)) = Ok [Made] /\ ctor cUQ (Bare (Arr (Vec 4) ZeroRow)) = Err ValueError.
+Proof. repeat split. Qed.
+Print Assumptions C07_ctor_uq_vec4.
 Theorem C07_ctor_uq_stack : forall r t, r <> 4 ->
   ctor cUQ (Bare (Arr (Rect r 4) t)) = if tag_eqb t ZeroRow then Err ValueError else Ok (repeat Made r).
 Proof. intros r t H. nat7 r; try reflexivity; contradiction. Qed.
@@ -123,7 +129,7 @@ Qed.
 Print Assumptions C07_ctor_list_rejects.
 Example C07_ctor_list_rejects_nonvacuous :
   accept cSO3 (Arr (Sq 3) NotOrtho) = false /\ accept cSO3 (Arr (Sq 3) Reflect) = false /\ accept cSE3 (Arr (Sq 4) BadRow) = false /\
-  accept cSO3 (Arr NonArray WrongShape) = false /\ accept cTw3 (Arr (Sq 4) NotAlgebra) = false /\ accept cUQ (Arr (Vec 4) NotOrtho) = false.
+  accept cSO3 (Arr NonArray WrongShape) = false /\ accept cTw3 (Arr (Sq 4) NotAlgebra) = false /\ accept cUQ (Arr (Vec 4) AltForm) = false.
 Proof. repeat split. Qed.
 (* no constructor ever yields a None or a float element *)
 Theorem C07_ctor_no_none : forall c a d, ctor c a = Ok d -> ~ In NoneElt d /\ ~ In NormFloat d.
@@ -151,7 +157,7 @@ Theorem C07_ctor_bare_rejects :
   (forall t, In t [NotOrtho; Reflect] -> exists e, ctor cSO3 (Bare (Arr (Sq 3) t)) = Err e) /\
   (forall t, In t [NotOrtho; Reflect; BadRow] -> exists e, ctor cSE2 (Bare (Arr (Sq 3) t)) = Err e) /\
   (forall t, In t [NotOrtho; Reflect; BadRow] -> exists e, ctor cSE3 (Bare (Arr (Sq 4) t)) = Err e) /\
-  (exists e, ctor cUQ (Bare (Arr (Vec 4) NotOrtho)) = Err e) /\
+  (exists e, ctor cUQ (Bare (Arr (Vec 4) ZeroRow)) = Err e) /\
   (forall t, In t [NotOrtho; Reflect] -> exists e, ctor cUQ (Bare (Arr (Sq 3) t)) = Err e) /\
   (exists e, ctor cTw3 (Bare (Arr (Sq 4) NotAlgebra)) = Err e) /\ (exists e, ctor cTw2 (Bare (Arr (Sq 3) NotAlgebra)) = Err e) /\
   (forall k, exists e, ctor cSE2 (Bare (Arr (Rect 2 (S (S k))) WrongShape)) = Err e).
